@@ -51,13 +51,17 @@ structure Bufs where
 section
 variable {κ : Type} (enc : κ → Bytes → Bytes)
 
+/-- `if (key != NULL) stream->key = key;` -/
+def pickKey (key : Option κ) (old : κ) : κ :=
+  match key with
+  | some k => k
+  | none => old
+
 /-- `crypto_aesctr_init2(stream, key, nonce)` on an initialised stream; `key = none` is `key == NULL`
     (retain the previous key).  `be64enc(stream->pblk, nonce); bytectr = 0; pblk[15] = 0xff`:
     bytes 8..14 of `pblk` keep whatever they held. -/
 def init2 (s : Stream κ) (key : Option κ) (nonce : UInt64) : Option (Stream κ) :=
-  let k := match key with
-    | some k => k
-    | none => s.key
+  let k := pickKey key s.key
   match writeAt s.pblk 0 (be64enc nonce) with
   | none => none
   | some pblk =>
